@@ -451,7 +451,7 @@ func init() {
 		Rule: "valid packages (library-built and foreign) mutated structure-aware: per XML part truncation, tag deletion/duplication/swap/rename, elements in illegal places (tbl in run, sectPr in pPr/tc, tr in body), valueless or odd attributes, strict/empty/wrong namespaces, empty/missing/wrong-root parts, " +
 			"nesting up to 5000 levels, 20000 repeated siblings, 1 MiB attribute, DOCTYPE entities, bit flips; per package dropped/duplicated/directory entries, truncated or bit-flipped ZIP, non-ZIP bytes. Each input is written to disk, opened (Open / OpenFromMemory alternately) in a child process under a watchdog; " +
 			"every successful open is followed by the post-open script (all read accessors, one edit of each family, template load+render, Markdown export, ToBytes, Save) and the regenerated main part must be well-formed. Non-trivial: every case; distinct = mutation classes + input hash.",
-		Cases:          func(t string) int { return tierN(t, 8000, 400000) },
+		Cases:          func(t string) int { return tierN(t, 6000, 400000) },
 		Run:            c06Case,
 		Assume:         []string{"termination is decided by a wall-clock watchdog >=100x the typical case cost (a bounded version of 'terminates')", "stack depth is bounded by the Go runtime's own limit raised to 512 MiB for this check"},
 		CrashIsFinding: true,
